@@ -965,6 +965,25 @@ fn push_instr(
     let mut parts = code.splitn(2, |c: char| c == ' ' || c == '\t');
     let mn = parts.next().unwrap().to_ascii_uppercase();
     let operand = parts.next().unwrap_or("").trim().to_string();
+    if mn == "NOPS" {
+        // harness pseudo-op for inline assembly of a chosen size: `NOPS n` is n NOP instructions
+        if let Ok(n) = operand.parse::<usize>() {
+            for _k in 0..n.min(4096) {
+                items.push(PItem::Instr(PInstr {
+                    func: fi,
+                    lineno,
+                    text: line.to_string(),
+                    mnemonic: "NOP".into(),
+                    shape: OperandShape::None,
+                    operand: String::new(),
+                    marker: marker.clone(),
+                    addr: 0,
+                    mode: None,
+                }));
+            }
+            return;
+        }
+    }
     if !is_mnemonic(&mn) {
         out.errors.push(AsmError {
             func: fname.to_string(),
